@@ -114,7 +114,7 @@ def name_tree(rng, shape, fancy=False):
             if casepairs:
                 return (('L%d' if lc[0] % 2 else 'l%d') % ((lc[0] + 1) // 2), ())
             if numeric:
-                return (str(9600 + 7 * lc[0]), ())
+                return (str(30000 + 7 * lc[0]), ())
             if oma and rng.random() < 0.2:
                 # near-misses of an OMA species code: five characters but not a code, or a code followed by more characters
                 return (rng.choice(['Sp%03d', 'sP%03d', 'SP%03dX', 'S-%03d']) % lc[0], ())
